@@ -52,7 +52,7 @@ func init() {
 		"C03.1", "C03.2", "C03.3", "C03.4", "C03.5", "C03.6", "C03.7", "C02.1", "C02.3")
 	property("C04", "Requests are routed to the replica set owning the key's slot, by role",
 		"the contents of the slot table versus the real cluster (C14); what a node does with READONLY/AUTH",
-		"C04.1", "C04.2", "C04.3", "C04.4", "C04.5", "C04.6", "C14.6", "C03.6")
+		"C04.1", "C04.2", "C04.3", "C04.4", "C04.5", "C04.6", "C04.7", "C14.6", "C03.6")
 	property("C05", "Key-to-slot mapping equals the Redis Cluster key-slot function",
 		"that the loop body of hash computes the CRC recurrence for every input (arithmetic shape; the table, the reduction, the tag extraction and the call sites are decided)",
 		"C05.1", "C05.2", "C05.3", "C05.4")
@@ -64,7 +64,7 @@ func init() {
 		"C07.1", "C07.2", "C07.3", "C07.4")
 	property("C08", "Request framing is independent of TCP segmentation",
 		"conn.Peek/Discard/Next arithmetic across ring leftover and fresh bytes and the ring buffer itself (C19) - value-level",
-		"C08.1", "C08.2", "C08.3", "C08.4", "C02.4")
+		"C08.1", "C08.2", "C08.3", "C08.4", "C08.5", "C02.4")
 	property("C09", "Completed replies are delivered promptly, not withheld by later requests",
 		"any time bound; scheduling of the event loop",
 		"C09.1", "C09.2", "C09.3", "C09.4")
@@ -76,7 +76,7 @@ func init() {
 		"C11.1", "C11.2", "C11.3", "C11.4")
 	property("C12", "No client input can crash the proxy, disturb others or reach a backend malformed",
 		"that parseLen accepts only canonical decimal and cannot overflow; memory growth on never-completing requests; every index expression on client bytes",
-		"C12.1", "C12.2", "C12.3", "C12.5", "C08.2", "C17.2", "C02.1", "C02.4")
+		"C12.1", "C12.2", "C12.3", "C12.4", "C12.5", "C08.2", "C17.2", "C02.1", "C02.4")
 	property("C13", "MOVED and ASK redirects are followed transparently and terminate",
 		"that the final node's reply is correct; cluster-side migration semantics",
 		"C13.1", "C13.2", "C13.3", "C13.4", "C13.5", "C15.4")
@@ -91,7 +91,7 @@ func init() {
 		"C16.1", "C16.2", "C16.3", "C16.4", "C16.5", "C03.2", "C07.1")
 	property("C17", "Only supported, well-formed, size-limited requests are forwarded",
 		"whether the arity table equals Redis's own arity (the property defines arity by the proxy's table)",
-		"C17.1", "C17.2", "C17.3", "C17.4", "C17.5", "C17.6", "C02.4")
+		"C17.1", "C17.2", "C17.3", "C17.4", "C17.5", "C17.6", "C17.7", "C02.4")
 	property("C18", "IP whitelist admits exactly the configured addresses, also after reload",
 		"'within a few seconds'; IPv6 remote addresses; the behaviour of fsnotify/inotify itself",
 		"C18.1", "C18.2", "C18.3", "C18.4")
